@@ -233,6 +233,10 @@ func (x *Exec) trBin(t *CBin, env *Env) Val {
 	case "<", "<=", ">", ">=":
 		return Val{T: tBool, S: "(" + t.Op + " " + l.S + " " + r.S + ")"}
 	case "+", "-", "*":
+		if t.Op == "+" && l.T != nil && x.so.sortOf(l.T) == "Str" {
+			x.sc.declFun("strcat", []string{"Str", "Str"}, "Str")
+			return Val{T: l.T, S: app("strcat", l.S, r.S)}
+		}
 		rt := l.T
 		if b, ok := rt.(*types.Basic); ok && b.Kind() == types.UntypedInt {
 			rt = r.T
